@@ -30,6 +30,8 @@ DOCS = [
     ("attrpath-single", "{\n  a.b = 1;\n  d = 3;\n}\n", None),
     ("attrpath-family", "{\n  a.b = 1;\n  a.c = 2;\n  d = 3;\n  e = 4;\n}\n", None),
     ("attrpath-interleaved", "{\n  a.b = 1;\n  d = 3;\n  a.c.k = 2;\n  e = [ 1 2 ];\n}\n", None),
+    ("attrpath-deep", "{\n  a.b.c.d = 1;\n  e = 3;\n}\n", None),
+    ("attrpath-deep-family", "{\n  a.b.c.d = 1;\n  a.b.x = 2;\n  n.m.p.q.k = 3;\n  e = 4;\n}\n", None),
     ("attrpath-in-nested", "{\n  n = {\n    p.q = 1;\n    p.r = 2;\n  };\n  m = 5;\n}\n", None),
     ("lambda", "{ pkgs }:\n{\n  a = 1;\n  b = {\n    c = 2;\n  };\n}\n", None),
     ("call", "f {\n  a = 1;\n  b.c = 2;\n}\n", None),
